@@ -359,7 +359,7 @@ class Impl:
                 sent = self.tr.value()
                 self.tr.clear()
                 serial = le32(sent[8:12]) if len(sent) >= 16 else None
-                self.calls.append({'serial': serial, 'er': bool(er), 'tmo': tmo, 'rs': rs})
+                self.calls.append({'serial': serial, 'er': bool(er), 'tmo': tmo, 'rs': rs, 'bad': serial is None})
                 self._attach(did, d)
                 lines.append('call %d %d %s %s' % (serial, 1 if er else 0, tmo, rs_tok(rs))
                              if serial is not None else 'callbad %s' % rs_tok(rs))
